@@ -119,7 +119,7 @@ def _txn(ctx, cfg, prog, mod):
     it = 0
     for (q, i) in own:
         for _ in range(40):
-            if ('fail', 1) not in eng.summary[(q, i)]:
+            if not txn.dirty_fail(eng.summary[(q, i)]):
                 break
             r = eng.own_root(q, i, oset)
             if r is None or r['exit_block'] is None:
@@ -133,7 +133,7 @@ def _txn(ctx, cfg, prog, mod):
                 break
             eng.cut_blocks.setdefault(q, set()).add(r['exit_block'])
             eng.summary[(q, i)] = eng.analyse(q, i)
-    remaining = [(q, i) for (q, i) in own if ('fail', 1) in eng.summary[(q, i)]]
+    remaining = [(q, i) for (q, i) in own if txn.dirty_fail(eng.summary[(q, i)])]
     # per-owner obligations
     n_mut = 0
     for (q, i) in own:
@@ -141,7 +141,7 @@ def _txn(ctx, cfg, prog, mod):
         summ = eng.summary[(q, i)]
         mutating = any(m for (_, m) in summ)
         n_mut += 1 if mutating else 0
-        fails = any(cls == 'fail' for (cls, _) in summ)
+        fails = any(cls in txn.FAILING for (cls, _) in summ)
         if q in dirty_owners or (q, i) in remaining:
             continue   # reported through its root keys below
         ctx.ob('TXN', q, cfg, True, 'outcomes (exit class, dirty) with callee owners on contract: %s' % sorted(summ),
@@ -233,14 +233,14 @@ def _side(ctx, cfg, prog, mod):
             b = prog.bodies[q]
             mutating = any(m for (_, m) in summ)
             n_mut += 1 if mutating else 0
-            ok = ('fail', 1) not in summ
+            ok = not txn.dirty_fail(summ)
             detail = 'outcomes (exit class, %s changed): %s' % (field, sorted(summ))
             if not ok:
                 r = eng.own_root(q, i, oset)
                 if r is not None:
                     detail += '; failing exit `%s` reached with %s changed by %s and not restored' % (
                         r['exit'], field, r['source'])
-            ctx.ob('SIDE', '%s|%s' % (field, q), cfg, ok, detail, nontrivial=mutating and any(c == 'fail' for c, _ in summ),
+            ctx.ob('SIDE', '%s|%s' % (field, q), cfg, ok, detail, nontrivial=mutating and any(c in txn.FAILING for c, _ in summ),
                    site='%s:%d' % (b.file, b.line))
         for owner, (ok, d) in sorted(keep.get(field, {}).items()):
             ctx.ob('SIDE', '%s|replace|%s' % (field, owner), cfg, ok or field == 'spatial_index',
